@@ -203,7 +203,10 @@ def pair_list():
         return y
     settings = [("options", "F_force_wrapper", True), ("options", "C_force_wrapper", True),
                 ("options", "F_string_len_trim", False), ("options", "doxygen", False),
-                ("format", "F_C_prefix", "cc_"), ("options", "literalinclude", True)]
+                ("format", "F_C_prefix", "cc_"), ("options", "literalinclude", True),
+                # wrapper selection is scoped like any option: switched on for a namespace or block = switched on
+                # for each of its members (the library default for both is off)
+                ("options", "wrap_python", True), ("options", "wrap_lua", True)]
     for (dct, k, v) in settings:
         for container in ("block", "namespace", "library"):
             inner_a = [decl(d) for d in FDECLS]
